@@ -152,7 +152,7 @@ def limits_gate_control(prog: Program, rep) -> None:
                     # integration solver: status = TimeLimit; break
                     ok = any(isinstance(s, ast.Assign) and enum_member(prog, fi, s.value, "pygradflow.status.SolverStatus") == "TimeLimit" for s in limit_body)
                     why = "sets status TimeLimit and leaves the loop"
-                ok = ok and leaves and all(isinstance(s, ast.Pass) for s in other_body)
+                ok = ok and leaves        # the other branch is the ordinary continuation, whatever it contains
                 if not ok:
                     # single-exit style: the branch only logs and assigns TimeLimit to the variable the function returns
                     from .common import value_sites
